@@ -113,7 +113,8 @@ type interpreter struct {
 	memFS     map[string]value
 	fsHook    value
 	clock     value
-	allocLog  []*value // heap cells allocated while inside a merged call
+	allocLog  []*value   // heap cells allocated while inside a merged call
+	mapLog    []*hashmap // maps allocated while inside a merged call
 }
 
 type deferred struct {
@@ -404,7 +405,13 @@ func visitInstr(fr *frame, instr ssa.Instruction) continuation {
 		if !fitsInt(reserve, fr.i.sizes) {
 			panic(fmt.Sprintf("ssa.MakeMap.Reserve value %d does not fit in int", reserve))
 		}
-		fr.env[instr] = makeMap(instr.Type().Underlying().(*types.Map).Key(), reserve)
+		nm := makeMap(instr.Type().Underlying().(*types.Map).Key(), reserve)
+		if fr.i.X != nil && fr.i.X.mctx != nil {
+			hm := nm.(*hashmap)
+			hm.creator = fr.i.X.mctx
+			fr.i.mapLog = append(fr.i.mapLog, hm)
+		}
+		fr.env[instr] = nm
 
 	case *ssa.Range:
 		fr.env[instr] = rangeIter(fr.get(instr.X))
